@@ -20,14 +20,12 @@ One `HeapObserver` per replay; use `post` as the post-hook of mut_ex.replay; the
 """
 from __future__ import annotations
 
-MODELLED_PREFIXES = ("(OAdd ", "(ORemove ", "(ORemoveChildren ", "(OClear ", "(OMove ", "(OMeta ", "(ONewTree ", "(ODel ", "(OShort ", "(OSetData ", "(ORename ")
+MODELLED_PREFIXES = ("(OAdd ", "(ORemove ", "(ORemoveChildren ", "(OClear ", "(OMove ", "(OMeta ", "(ONewTree ", "(ODel ", "(OShort ", "(OSetData ", "(ORename ",
+                     "(OSort ", "(OAddNode ", "(OAddTree ", "(OCopyTo ", "(OTreeCopy ", "(ONodeCopy ")
 
 
 def modelled(coq_op: str) -> bool:
-    s = coq_op.strip()
-    if s.startswith("(OSort "):
-        return s.rstrip(")").rstrip().endswith("false")       # deep = false
-    return s.startswith(MODELLED_PREFIXES)
+    return coq_op.strip().startswith(MODELLED_PREFIXES)
 
 
 class HeapObserver:
